@@ -475,12 +475,25 @@ def run_literals(ctx, corr, exe):
     pieces = ["0", "1", "9", "+", "-", ".", "e", "E", " ", "x", "12", "-0", "0-0-0", "10-20-30", "1e5", ".5", "5.", "e+", "\t", "\n", "99999999999", "-1-"]
     for _ in range(ctx.size(3000, 60000)):
         s = "".join(ctx.rng.choice(pieces) for _ in range(ctx.rng.randint(1, 7)))
-        if re.search(r"[eE][+-]?\d{3,}", s):
-            continue                     # strtod overflow is outside the modelled language
+        if re.search(r"-.*[eE][+]?\d{3,}", s):
+            continue                     # deg2gon's seconds (`>> double`) overflowing to HUGE_VAL are outside its modelled language
         rnd.append(s.encode())
     for s in [b"", b" ", b"+", b"1e+5", b"1e", b"1 1", b"0-0-0", b"+-0-0-0", b"-+5-10-20", b"+ 5-10-20.5e1", b"2147483648-0-0",
               b"2147483647-0-0", b"0-0-0.", b"0-0-.5", b" 12 ", b"\xc3\xa9", b"1\x00", b"12\t", b"0012", b"1-2147483648-0"]:
         rnd.append(s)
+    # CoreParser::toDouble = IsFloat and isfinite(atof): the overflow border DBL_MAX + ulp/2 = 2^1024 - 2^970, exactly
+    T = 2 ** 1024 - 2 ** 970
+    for s in ["1e999", "-1e999", " +1E+400 ", "1e308", "1.7976931348623157e308", "1.7976931348623158e308", "1.7976931348623159e308",
+              "1.8e308", "0e999", "0.0e99999999999999999999", "1e-999", "1e-99999999999999999999", "17976931348623158e292",
+              "0.00017976931348623159e312", str(T), str(T - 1), str(T + 1), str(T) + ".0", str(T - 1) + ".999", "0" * 50 + str(T - 1),
+              " " + str(T - 1) + " ", "9" * 308, "9" * 309, "9" * 400, "1" + "0" * 308, "1" + "0" * 309, "." + "0" * 400 + "1e709", "." + "0" * 400 + "1e710",
+              str(T)[:200] + "." + str(T)[200:] + "e109", str(T - 1)[:200] + "." + str(T - 1)[200:] + "e109"]:
+        rnd.append(s.encode())
+    for _ in range(ctx.size(300, 3000)):       # random literals around the border
+        m = str(ctx.rng.randrange(1, 10 ** ctx.rng.randint(1, 20)))
+        k = ctx.rng.randint(0, len(m))
+        e = ctx.rng.choice([308, 309, 307, 300, 310, 290, 320, 999, -400, 0]) - (len(m) - 1 if ctx.rng.random() < 0.8 else 0) + (len(m) - k)
+        rnd.append((m[:k] + ctx.rng.choice([".", "", "."]) + m[k:] + ctx.rng.choice(["e", "E"]) + ctx.rng.choice(["", "+"] if e >= 0 else [""]) + str(e)).encode())
     cases.append([f"lit {hexs(s)}" for s in rnd])
     impl, crashes = run_cases(exe, cases, timeout=1200)
     model, mcr = run_cases(ctx.driver("drv_gkf"), cases, timeout=1200)
@@ -500,7 +513,7 @@ def run_literals(ctx, corr, exe):
                 for _ in range(n):
                     s = chr(LIT_ALPHABET[jj % len(LIT_ALPHABET)]) + s
                     jj //= len(LIT_ALPHABET)
-                corr.disagree("literals", {"string": s, "len": n}, a[j:j + 1], b[j:j + 1], "IsFloat+2*IsInteger+4*deg2gon : toIndex")
+                corr.disagree("literals", {"string": s, "len": n}, a[j:j + 1], b[j:j + 1], "IsFloat+2*IsInteger+4*deg2gon+8*toDouble : toIndex")
             acc += sum(1 for x in a if x[0] not in "0c")
         else:
             tot += len(rnd)
@@ -544,7 +557,7 @@ def run_cov(ctx, corr, exe):
                 toks.append("30" if cc == rr else "0.5")
         toks = (toks + ["30"] * 3)[:n] if n >= len(toks) else toks[:n]
         if r >= 0.6 and r < 0.7 and toks:
-            toks[rng.randrange(len(toks))] = rng.choice(["x", "1e", "1,5", ".", "+", "1.2.3", "--1"])
+            toks[rng.randrange(len(toks))] = rng.choice(["x", "1e", "1,5", ".", "+", "1.2.3", "--1", "1e999", "-1e400", "1.8e308", "1.7e308", "1e-999"])
         sep = rng.choice([" ", "\n", "\t ", "  "])
         text = rng.choice(["", sep]) + sep.join(toks) + rng.choice(["", sep])
         try:
